@@ -40,7 +40,7 @@ pub struct OrderMonitor {
 	/// nodes that ran with delayed (async or deferred) persistence at some point
 	pub delayed_nodes: BTreeSet<usize>,
 	cur_step: u64,
-	claims: HashMap<[u8; 32], u64>, // hash prefix(6 bytes padded) -> step of claim_funds
+	claims: HashMap<[u8; 32], Vec<u64>>, // hash prefix (6 bytes, padded) -> steps at which claim_funds was called
 }
 
 impl OrderMonitor {
@@ -237,7 +237,7 @@ impl Monitor for OrderMonitor {
 					if let Some(b) = vcore::unhex(h) {
 						k[..b.len()].copy_from_slice(&b);
 					}
-					self.claims.entry(k).or_insert(*step);
+					self.claims.entry(k).or_default().push(*step);
 				}
 			},
 			Obs::Event { node, ev, step } => {
@@ -261,8 +261,10 @@ impl Monitor for OrderMonitor {
 							k[..6].copy_from_slice(&payment_hash.0[..6]);
 							if let Some(cs) = self.claims.get(&k) {
 								v.rep.count("c09_o3_rule_evaluations");
-								if first_step != cs {
-									v.violation("C09", "O3-preimage-handed-at-once", "the PaymentPreimage update was not handed to chain::Watch in the call that learned the preimage", format!("node{} claim at step {} update first handed at step {}", node, cs, first_step));
+								// (a claim_funds call on a node that does not know the payment, e.g. right after a restart
+								// from an older manager, is a no-op; the call that took effect is what counts)
+								if !cs.contains(first_step) {
+									v.violation("C09", "O3-preimage-handed-at-once", "the PaymentPreimage update was not handed to chain::Watch in the call that learned the preimage", format!("node{} claim_funds at steps {:?} but update first handed at step {}", node, cs, first_step));
 								}
 							}
 						}
